@@ -55,10 +55,18 @@ func runC18(in *Sx) *Sx {
 			T("noparam", X(c.Param("zz")), I64(int64(c.ParamInt("zz")))),
 			T("nocookie", X(c.Cookie("none"))),
 		)
+		// several cookies on one response: each is its own Set-Cookie header
+		c.SetCookie(http.Cookie{Name: "first", Value: "one", Path: "/"})
 		c.SetCookie(http.Cookie{Name: "ck", Value: cv, Path: "/"})
+		c.SetCookie(http.Cookie{Name: "last", Value: "l st", Path: "/"})
 	})
 	var got string
-	f.Get("/read", func(c flamego.Context) { got = c.Cookie("ck") })
+	f.Get("/read", func(c flamego.Context) {
+		got = c.Cookie("ck")
+		if c.Cookie("first") != "one" || c.Cookie("last") != "l st" {
+			got = "<a cookie set on the same response was lost>"
+		}
+	})
 
 	u := &url.URL{Path: "/p/" + pv, RawPath: ""}
 	if qv.Atom != "absent" {
@@ -71,12 +79,15 @@ func runC18(in *Sx) *Sx {
 		return T("obs", T("panic"))
 	}
 	// the client sends the cookie back as received
-	sc := w.hdr.Get("Set-Cookie")
-	pair := sc
-	if i := strings.Index(sc, ";"); i >= 0 {
-		pair = sc[:i]
+	var pairs []string
+	for _, sc := range w.hdr.Values("Set-Cookie") {
+		pair := sc
+		if i := strings.Index(sc, ";"); i >= 0 {
+			pair = sc[:i]
+		}
+		pairs = append(pairs, pair)
 	}
-	req2 := &http.Request{Method: "GET", URL: &url.URL{Path: "/read"}, Header: http.Header{"Cookie": {pair}}, Proto: "HTTP/1.1"}
+	req2 := &http.Request{Method: "GET", URL: &url.URL{Path: "/read"}, Header: http.Header{"Cookie": {strings.Join(pairs, "; ")}}, Proto: "HTTP/1.1"}
 	f.ServeHTTP(&wireWriter{hdr: http.Header{}}, req2)
 	out = append(out, T("cookie", X(got)))
 	return T("obs", out...)
